@@ -81,3 +81,14 @@ Definition f_of_bits (z : Z) : f64 :=
   else match frac + 2 ^ 52 with Zpos p => S754_finite s p (E - 1075) | _ => S754_nan end.
 
 Definition f_valid (f : f64) : bool := valid_binary prec emax f.
+
+(** An IEEE binary32 bit pattern widened (exactly) to binary64: [f as f64]. *)
+Definition f_of_bits32 (z : Z) : f64 :=
+  let s := 0 <? z / 2 ^ 31 in
+  let E := (z / 2 ^ 23) mod 256 in
+  let frac := z mod 2 ^ 23 in
+  if E =? 255 then (if frac =? 0 then S754_infinity s else S754_nan)
+  else
+    let m := if E =? 0 then frac else frac + 2 ^ 23 in
+    let e := if E =? 0 then -149 else E - 150 in
+    binary_normalize prec emax (if s then - m else m) e s.
